@@ -474,10 +474,10 @@ _HEADER = {
     # header and subheader
     'target':   bytes([0x00, 0x02]),
     'target4':  bytes([0x01, 0x02]),
-    # TODO: OriginASN4Number (2,2)
+    'target4as': bytes([0x02, 0x02]),
     'origin':   bytes([0x00, 0x03]),
     'origin4':  bytes([0x01, 0x03]),
-    # TODO: RouteTargetASN4Number (2,3)
+    'origin4as': bytes([0x02, 0x03]),
     'redirect': bytes([0x80, 0x08]),
     'l2info':   bytes([0x80, 0x0A]),
     'redirect-to-nexthop': bytes([0x08, 0x00]),
@@ -489,8 +489,10 @@ _HEADER = {
 _ENCODE = {
     'target':   'HL',
     'target4':  'LH',
+    'target4as': 'LH',
     'origin':   'HL',
     'origin4':  'LH',
+    'origin4as': 'LH',
     'redirect': 'HL',
     'l2info':   'BBHH',
     'bandwidth': 'Hf',
@@ -546,8 +548,12 @@ def _encode(command: str, components: list[int], parts: list[str]) -> tuple[byte
         raise ValueError('invalid extended community type {}'.format(command))
 
     if command in ('origin', 'target'):
-        if components[0] > _SIZE_H or '.' in parts[0] or parts[0][-1] == 'L':
+        if '.' in parts[0]:
+            # IPv4 address specific (RFC 4360)
             command += '4'
+        elif components[0] > _SIZE_H or parts[0][-1] == 'L':
+            # four-octet AS specific (RFC 5668), not an IPv4 address
+            command += '4as'
 
     encoding = _ENCODE[command]
 
